@@ -70,3 +70,33 @@ def compare_functions(ctx, kind, before, after, nodes, order=None, extra_fixed=N
             ok = False
             break
     return ok
+
+
+def _canon_result(r):
+    from rv.monitor import snapshot
+
+    if hasattr(r, "graph") and hasattr(r, "blackboxes"):
+        return ("circuit", snapshot(r))
+    if isinstance(r, dict):
+        return ("dict", tuple(sorted((repr(k), _canon_result(v)) for k, v in r.items())))
+    if isinstance(r, (list, tuple)):
+        return ("seq", tuple(_canon_result(x) for x in r))
+    if isinstance(r, (set, frozenset)):
+        return ("set", tuple(sorted(repr(x) for x in r)))
+    return ("val", repr(r))
+
+
+def repeat_call(ctx, kind, what, fn, args, kwargs, first):
+    """Call ``fn`` a second time with the SAME argument objects: a deterministic library function must
+    give an equal result (state leaking between calls, caches keyed by the wrong thing, arguments
+    modified by the first call).  ``first`` is the first call's (ok, result)."""
+    ok1, r1 = first
+    ok2, r2 = ctx.call(fn, *args, **kwargs)
+    ctx.count("repeat_calls")
+    if ok1 != ok2:
+        ctx.violation(kind + "_repeat_differs", f"{what}: first call {'returned' if ok1 else 'raised ' + repr(r1)}, the same call repeated {'returned' if ok2 else 'raised ' + repr(r2)}")
+        return False
+    if ok1 and _canon_result(r1) != _canon_result(r2):
+        ctx.violation(kind + "_repeat_differs", f"{what}: the same call with the same arguments gave a different result the second time")
+        return False
+    return True
